@@ -93,8 +93,10 @@ def run_sim(fams, seed, n, shards=8, flavour="full", scen_in=None):
             alarms = [tuple(int(x) for x in a.split(":")) for a in parts[1].split()]
             guards = [tuple(int(x) for x in a.split(":")) for a in parts[2].split()] if len(parts) > 2 else []
             idx = int(hdr[1])
-            env_first = int(parts[3]) if len(parts) > 3 and parts[3].strip() else None
-            results.append({"env_first": env_first, "index": idx, "name": hdr[2], "family": hdr[2].split("-")[0], "n_events": int(hdr[3]), "verdict": hdr[4],
+            envf = parts[3].split() if len(parts) > 3 else []
+            env_first = int(envf[0]) if envf else None
+            envt_first = int(envf[1]) if len(envf) > 1 else None
+            results.append({"env_first": env_first, "envt_first": envt_first, "index": idx, "name": hdr[2], "family": hdr[2].split("-")[0], "n_events": int(hdr[3]), "verdict": hdr[4],
                             "alarms": alarms, "guards": guards, "shard": so, "stderr": crashed.get(idx, "")})
     return results, shard_out
 
